@@ -24,6 +24,7 @@ type c03Params struct {
 	SlowEst   bool   // OnEstablished takes virtual time while UPDATEs are already arriving
 	SlowH     bool   // handler takes random virtual time
 	Partition string // how the byte stream is cut into writes
+	End       string // "" | fin | badhdr | notif : what follows the stream at once
 	Seed      uint64
 	Hook      int
 }
@@ -130,11 +131,21 @@ func c03World(t *testing.T, p c03Params) rt.Result {
 			stream = append(stream, wire.Update(b)...)
 		}
 		nsent = len(sent)
+		switch p.End {
+		case "badhdr":
+			stream = append(stream, wire.RawHeader(make([]byte, 16), 19, 4)...)
+		case "notif":
+			stream = append(stream, wire.Notification(6, 0, nil)...)
+		}
 		if len(bounds) > 0 && bounds[0] == 0 {
 			bounds = bounds[1:]
 		}
 		rc.W.Log.Add("tx", ps.Addr.String(), rc.ID, fmt.Sprintf("stream of %d messages (%d UPDATEs, %d bytes) partition=%s", p.N, len(sent), len(stream), p.Partition), "")
 		rc.SendCuts(stream, c03Cuts(r, p.Partition, len(stream), bounds), time.Nanosecond)
+		if p.End == "fin" {
+			rc.Pair.WriteAfterPeerCloseOK = true
+			rc.Close()
+		}
 		time.Sleep(time.Duration(p.N)*11*time.Millisecond + 10*time.Millisecond)
 		w.Settle()
 
@@ -172,13 +183,26 @@ func c03World(t *testing.T, p c03Params) rt.Result {
 			if ss[0].CloseExit < 0 {
 				w.Violate("OnClose not delivered after the handler's NOTIFICATION")
 			}
+		} else if p.End != "" {
+			// every UPDATE that precedes the end of the connection was delivered (checked
+			// above); the session then ends exactly once
+			if ss[0].CloseExit < 0 {
+				w.Violate("stream followed by %s: OnClose not delivered", p.End)
+			}
+			ns := notifsOf(after)
+			if p.End == "badhdr" && (len(ns) != 1 || ns[0].Code != 1 || ns[0].Sub != 1) {
+				w.Violate("stream followed by a bad marker: expected NOTIFICATION(1,1), got %v", ns)
+			}
+			if p.End != "badhdr" && len(ns) != 0 {
+				w.Violate("stream followed by %s: corebgp sent %v", p.End, ns)
+			}
 		} else {
 			if eof || len(notifsOf(after)) > 0 {
 				w.Violate("session ended during a well-formed UPDATE stream: %s eof=%v", typesOf(after), eof)
 			}
 		}
 	})
-	return worldResult(out, nsent > 0, fmt.Sprintf("|%s %s g%v n%v se%v sh%v", p.Dir, p.Partition, p.Glue, p.NotifAt >= 0, p.SlowEst, p.SlowH),
+	return worldResult(out, nsent > 0, fmt.Sprintf("|%s %s g%v n%v se%v sh%v %s", p.Dir, p.Partition, p.Glue, p.NotifAt >= 0, p.SlowEst, p.SlowH, p.End),
 		map[string]int{"updates_sent": nsent, "updates_delivered": ndeliv, "streams": 1})
 }
 
@@ -201,6 +225,8 @@ func TestC03(t *testing.T) {
 			Partition: c03Partitions[r.IntN(len(c03Partitions))], Seed: uint64(i)*668265263 + c.Seed, Hook: hookMode(r)}
 		if r.IntN(4) == 0 {
 			p.NotifAt = r.IntN(p.N)
+		} else if r.IntN(3) == 0 {
+			p.End = []string{"fin", "badhdr", "notif"}[r.IntN(3)]
 		}
 		if p.Partition == "bytes" && p.N > 12 {
 			p.N = 12 // 1-byte writes of large messages are slow; keep them short
